@@ -107,8 +107,18 @@ def fresh_sources(R):
             G.append(('%s: registry lists every zone exactly once' % tag, None not in reg_names and sorted(reg_names) == sorted(names), None))
             asc = None not in reg_names and all(a.encode() < b.encode() for a, b in zip(reg_names, reg_names[1:]))
             G.append(('%s: registry strictly ascending by name (byte order)' % tag, asc, [x for x in reg_names][:12] if not asc else None))
-            bad = [(lv, tv) for lv, tv in t.links.items() if tv not in var_to_name]
-            G.append(('%s: every link (%d) refers to an emitted zone' % (tag, len(t.links)), not bad, bad[:5]))
+            # links: the emitted alias must denote exactly the zone named as the target in the source's Link line
+            src_links = {ln: tn for tn, ln in re.findall(r'^Link\s+(\S+)\s+(\S+)', text, re.M)}
+            hdr = open(os.path.join(out, 'zone_infos.h')).read()
+            link_names = dict(re.findall(r'kZone(\w+); // (\S+) -> \S+', hdr))       # link var -> link name
+            bad = []
+            for lv, tv in t.links.items():
+                ln = link_names.get(lv)
+                if tv not in var_to_name:
+                    bad.append((lv, tv, 'target is not an emitted zone'))
+                elif ln is None or src_links.get(ln) != var_to_name[tv]:
+                    bad.append((ln or lv, 'denotes %r' % var_to_name[tv], 'the source links it to %r' % src_links.get(ln)))
+            G.append(('%s: every emitted link (%d) denotes exactly the target zone of its Link line' % (tag, len(t.links)), not bad, bad[:5]))
     R.samples.append(dict(freshly_compiled_tables=n_tables, source='rtc/tzsrc/synthetic_ids: Etc/GMT+1 / Etc/GMT-1 siblings, punctuation, case'))
 
 
